@@ -26,7 +26,8 @@
 (***************************************************************************)
 EXTENDS RaftPinsetOps
 
-CONSTANTS MaxLog, MaxSnaps, MaxDowns, MaxInstalls
+CONSTANTS MaxLog, MaxSnaps, MaxDowns, MaxInstalls,
+          MaxFaults     \* how many applies may fail (datastore write error under dsstate)
 
 VARIABLES log,      \* committed entries (Seq(Ops))
           up,       \* [Peers -> BOOLEAN]
@@ -35,10 +36,11 @@ VARIABLES log,      \* committed entries (Seq(Ops))
           inited,   \* [Peers -> BOOLEAN] libp2p-raft FSM.initialized
           snap,     \* [Peers -> [idx, data]] latest local snapshot on disk
           acked,    \* set of log indices acknowledged to a caller
-          cnt,      \* bounds: [snaps, downs, installs]
+          broken,   \* [Peers -> BOOLEAN] libp2p-raft FSM.inconsistent: an apply failed, State() serves an error
+          cnt,      \* bounds: [snaps, downs, installs, faults]
           last      \* the action just taken, with the tracker call it produced
 
-vars == <<log, up, applied, fsm, inited, snap, acked, cnt, last>>
+vars == <<log, up, applied, fsm, inited, snap, acked, broken, cnt, last>>
 
 ApplyPrefix(n) == ApplyPrefixOf(log, n)
 
@@ -53,7 +55,8 @@ Init ==
     /\ inited = [p \in Peers |-> FALSE]
     /\ snap = [p \in Peers |-> NoSnap]
     /\ acked = {}
-    /\ cnt = [snaps |-> 0, downs |-> 0, installs |-> 0]
+    /\ broken = [p \in Peers |-> FALSE]
+    /\ cnt = [snaps |-> 0, downs |-> 0, installs |-> 0, faults |-> 0]
     /\ last = Act("init", NONE, NONE, 0, NoCall)
 
 Quorum == 2 * Cardinality({p \in Peers : up[p]}) > NPEERS
@@ -64,7 +67,7 @@ Commit(op) ==
     /\ Quorum
     /\ log' = Append(log, op)
     /\ last' = Act("commit", NONE, NONE, Len(log) + 1, NoCall)
-    /\ UNCHANGED <<up, applied, fsm, inited, snap, acked, cnt>>
+    /\ UNCHANGED <<up, applied, fsm, inited, snap, acked, broken, cnt>>
 
 (* LogPin/LogUnpin returns nil: the leader's ApplyFuture has completed, so  *)
 (* some live peer (the leader) has applied entry i.                        *)
@@ -73,7 +76,7 @@ Ack(i) ==
     /\ \E p \in Peers : up[p] /\ applied[p] >= i
     /\ acked' = acked \cup {i}
     /\ last' = Act("ack", NONE, NONE, i, NoCall)
-    /\ UNCHANGED <<log, up, applied, fsm, inited, snap, cnt>>
+    /\ UNCHANGED <<log, up, applied, fsm, inited, snap, broken, cnt>>
 
 ApplyNext(p) ==
     /\ up[p] /\ applied[p] < Len(log)
@@ -83,15 +86,29 @@ ApplyNext(p) ==
           /\ applied' = [applied EXCEPT ![p] = i]
           /\ last' = Act("apply", p, NONE, i, CallFor(log[i], new))
     /\ inited' = [inited EXCEPT ![p] = TRUE]
-    /\ UNCHANGED <<log, up, snap, acked, cnt>>
+    /\ UNCHANGED <<log, up, snap, acked, broken, cnt>>
+
+(* LogOp.ApplyTo fails (state.Add / state.Rm returns an error: ROLLBACK      *)
+(* path): nothing is written, nothing is handed to the tracker, FSM.Apply    *)
+(* marks the state inconsistent; raft goes on with the next entries, which   *)
+(* are applied to the store, but the state is no longer SERVED (getState     *)
+(* returns an error) until a snapshot is restored or the peer restarts.      *)
+ApplyFails(p) ==
+    /\ up[p] /\ applied[p] < Len(log)
+    /\ cnt.faults < MaxFaults
+    /\ applied' = [applied EXCEPT ![p] = @ + 1]
+    /\ broken' = [broken EXCEPT ![p] = TRUE]
+    /\ cnt' = [cnt EXCEPT !.faults = @ + 1]
+    /\ last' = Act("applyfail", p, NONE, applied[p] + 1, NoCall)
+    /\ UNCHANGED <<log, up, fsm, inited, snap, acked>>
 
 TakeSnapshot(p) ==
-    /\ up[p] /\ inited[p] /\ applied[p] > snap[p].idx
+    /\ up[p] /\ inited[p] /\ ~broken[p] /\ applied[p] > snap[p].idx
     /\ cnt.snaps < MaxSnaps
     /\ snap' = [snap EXCEPT ![p] = [idx |-> applied[p], data |-> fsm[p]]]
     /\ cnt' = [cnt EXCEPT !.snaps = @ + 1]
     /\ last' = Act("snapshot", p, NONE, applied[p], NoCall)
-    /\ UNCHANGED <<log, up, applied, fsm, inited, acked>>
+    /\ UNCHANGED <<log, up, applied, fsm, inited, acked, broken>>
 
 (* The leader q has compacted its log past p's position and ships its      *)
 (* snapshot; raft stores it locally at p and calls FSM.Restore on the live *)
@@ -106,13 +123,14 @@ InstallSnapshot(p, q) ==
     /\ snap' = [snap EXCEPT ![p] = snap[q]]
     /\ cnt' = [cnt EXCEPT !.installs = @ + 1]
     /\ last' = Act("install", p, q, snap[q].idx, NoCall)
+    /\ broken' = [broken EXCEPT ![p] = FALSE]         \* FSM.Restore: inconsistent = false
     /\ UNCHANGED <<log, up, acked>>
 
 Down(p, graceful) ==
     /\ up[p]
     /\ cnt.downs < MaxDowns
     /\ up' = [up EXCEPT ![p] = FALSE]
-    /\ snap' = IF graceful /\ inited[p] /\ applied[p] > snap[p].idx
+    /\ snap' = IF graceful /\ inited[p] /\ ~broken[p] /\ applied[p] > snap[p].idx
                THEN [snap EXCEPT ![p] = [idx |-> applied[p], data |-> fsm[p]]]
                ELSE snap
     /\ fsm' = [fsm EXCEPT ![p] = EmptyPs]       \* in-memory pinset store
@@ -120,6 +138,7 @@ Down(p, graceful) ==
     /\ inited' = [inited EXCEPT ![p] = FALSE]
     /\ cnt' = [cnt EXCEPT !.downs = @ + 1]
     /\ last' = Act(IF graceful THEN "shutdown" ELSE "kill", p, NONE, applied[p], NoCall)
+    /\ broken' = [broken EXCEPT ![p] = FALSE]
     /\ UNCHANGED <<log, acked>>
 
 Shutdown(p) == Down(p, TRUE)
@@ -134,12 +153,12 @@ Restart(p) ==
             /\ inited' = [inited EXCEPT ![p] = TRUE]
        ELSE UNCHANGED <<fsm, applied, inited>>
     /\ last' = Act("restart", p, NONE, snap[p].idx, NoCall)
-    /\ UNCHANGED <<log, snap, acked, cnt>>
+    /\ UNCHANGED <<log, snap, acked, broken, cnt>>
 
 Next ==
     \/ \E op \in Ops : Commit(op)
     \/ \E i \in 1..MaxLog : Ack(i)
-    \/ \E p \in Peers : ApplyNext(p) \/ TakeSnapshot(p) \/ Shutdown(p) \/ Kill(p) \/ Restart(p)
+    \/ \E p \in Peers : ApplyNext(p) \/ ApplyFails(p) \/ TakeSnapshot(p) \/ Shutdown(p) \/ Kill(p) \/ Restart(p)
     \/ \E p, q \in Peers : InstallSnapshot(p, q)
 
 Spec == Init /\ [][Next]_vars
@@ -157,12 +176,16 @@ TypeOK ==
     /\ fsm \in [Peers -> Pinsets]
     /\ \A p \in Peers : snap[p].idx \in 0..MaxLog /\ snap[p].data \in Pinsets
     /\ acked \subseteq 1..MaxLog
+    /\ broken \in [Peers -> BOOLEAN]
 
 (* every live replica holds the result of a prefix of the committed sequence *)
-PrefixInv == \A p \in Peers : up[p] => fsm[p] = ApplyPrefix(applied[p])
+(* what Consensus.State() serves: an error once an apply failed, else the store *)
+(* (an FSM that never applied anything successfully is "not initialised": the empty pinset is served) *)
+Served(p) == IF ~inited[p] THEN EmptyPs ELSE IF broken[p] THEN "error" ELSE fsm[p]
+PrefixInv == \A p \in Peers : up[p] => broken[p] \/ fsm[p] = ApplyPrefix(applied[p])   \* Served(p) is an error or a prefix result
 
 (* a caught-up replica holds the result of the whole sequence *)
-CaughtUp == \A p \in Peers : up[p] /\ applied[p] = Len(log) => fsm[p] = ApplyPrefix(Len(log))
+CaughtUp == \A p \in Peers : up[p] /\ applied[p] = Len(log) => broken[p] \/ fsm[p] = ApplyPrefix(Len(log))
 
 (* snapshots (hence restarts from disk and OfflineState) are prefix results too *)
 SnapFaithful == \A p \in Peers : Offline(p) = ApplyPrefix(snap[p].idx)
@@ -172,7 +195,7 @@ SnapFaithful == \A p \in Peers : Offline(p) = ApplyPrefix(snap[p].idx)
 AckDurable ==
     /\ \A i \in acked : i <= Len(log)
     /\ last.a = "ack" => \E p \in Peers : up[p] /\ applied[p] >= last.i
-                                          /\ fsm[p] = ApplyPrefix(applied[p])
+                                          /\ (broken[p] \/ fsm[p] = ApplyPrefix(applied[p]))
 
 (* the tracker is handed what was stored *)
 TrackerFaithful ==
